@@ -1243,7 +1243,9 @@ htp_status_t htp_connp_RES_IDLE(htp_connp_t *connp) {
     if (connp->out_tx == NULL) {
         htp_log(connp, HTP_LOG_MARK, HTP_LOG_ERROR, 0, "Unable to match response to request");
         // finalize dangling request waiting for next request or body
-        if (connp->in_state == htp_connp_REQ_FINALIZE) {
+        // (unless the request side has stopped: it runs no callbacks any more)
+        if ((connp->in_state == htp_connp_REQ_FINALIZE)
+                && (connp->in_status != HTP_STREAM_ERROR) && (connp->in_status != HTP_STREAM_STOP)) {
             htp_tx_state_request_complete(connp->in_tx);
         }
         connp->out_tx = htp_connp_tx_create(connp);
